@@ -1,0 +1,3 @@
+// Package verifhook is used only by the external verification harness.
+// Without the `verif` build tag it is empty.
+package verifhook
